@@ -143,6 +143,77 @@ def selfwrite(rng):
     return [prog, ops]
 
 
+def selfwrite_direct(rng):
+    """effects that write what they read, outside the failing shape of F-C02-d: clamp / count-up / normalise on a signal
+    the effect (or the watch dependency fn) reads DIRECTLY, written by the body or by the watch handler; or read
+    through a memo that is not pulled again after the write.  Guards make every history reach idle."""
+    fl = rng.choice([0, 1, 2, 4])
+    c = rng.randint(2, 5)
+    prog = [[0, fl, rng.randint(0, 2)], [0, rng.choice([0, 1, 2, 3, 4]), rng.randint(0, 3)]]
+    via_memo = rng.random() < 0.35
+    src = 0
+    if via_memo:
+        prog.append([1, rng.choice([0, 0, 1]), rng.randint(0, 1), [1, 0] if rng.random() < 0.7 else [4, [1, 0], [0, 0]]])
+        src = 2
+    kind = rng.choice([0, 0, 1, 2, 2, 3, 3, 4])
+    shape = rng.choice(["up", "up", "clamp", "norm"])
+    rd = lambda tr: [1, src] if tr else [2, src]
+    def wr(tr):
+        if shape == "up":        # count up to c
+            return [6, [5, rd(tr), [0, c]], [7, 0, [4, rd(tr), [0, 1]]], [0, 0]]
+        if shape == "clamp":     # values above c are clamped
+            return [6, [5, [0, c], rd(tr)], [7, 0, [0, c]], [0, 0]]
+        return [6, [5, rd(tr), [0, 1]], [7, 0, [0, 1]], [0, 0]]      # normalise: 0 becomes 1
+    extra = [1, 1] if rng.random() < 0.5 else [0, 0]
+    if kind in (2, 3):
+        if rng.random() < 0.75:
+            nd = [3, kind, [4, [1, src], extra], wr(False)]         # the handler writes what the dependency fn reads
+        else:
+            nd = [3, kind, [4, [4, [1, src], extra], wr(True)], [0, 0]]
+    else:
+        nd = [3, kind, [4, [4, [1, src], extra], wr(True)], [0, 0]]
+    prog.append(nd)
+    if rng.random() < 0.4:
+        prog.append([3, rng.choice([0, 1, 4]), [1, src], [0, 0]])  # an onlooker
+    if rng.random() < 0.5:
+        X.add_variants(rng, prog, 0.6)
+    ops = [[4]] if rng.random() < 0.8 else []
+    for _ in range(rng.randint(1, 4)):
+        r = rng.random()
+        ops.append([0, 0, rng.choice([0, 0, 1, 2, 7, 9])] if r < 0.7 else [0, 1, rng.randint(0, 3)])
+        if rng.random() < 0.3:
+            ops.append([0, 0, rng.choice([0, 8])])
+        ops.append([4] if rng.random() < 0.75 else [3, rng.randint(0, 2)])
+    ops.append([4])
+    return X.with_flags(rng, prog, ops, 0.3)
+
+
+def selfwrite_immediate(rng):
+    """an ImmediateEffect that writes, during its own run, a signal it reads directly or through a memo (it recurses:
+    ImmediateEffect::new takes an Fn for that reason); the write is the last thing the body does"""
+    c = rng.randint(2, 4)
+    prog = [[0, rng.choice([0, 1, 2, 4]), rng.randint(0, 1)], [0, rng.choice([0, 1, 2, 4]), 0]]
+    src = 0
+    if rng.random() < 0.6:
+        prog.append([1, 0, rng.randint(0, 1), [1, 0]])
+        src = 2
+    shape = rng.choice(["up", "clamp"])
+    if shape == "up":
+        w_ = [6, [5, [1, src], [0, c]], [7, 0, [4, [1, src], [0, 1]]], [0, 0]]
+    else:
+        w_ = [6, [5, [0, c], [1, src]], [7, 0, [0, c]], [0, 0]]
+    prog.append([3, 5, [4, [1, src], w_], [0, 0]] if rng.random() < 0.5 else [3, 5, w_, [0, 0]])
+    ops = []
+    for _ in range(rng.randint(1, 3)):
+        ops.append([0, 0, rng.choice([0, 0, 1, 7, 9])])
+        if rng.random() < 0.4:
+            ops.append([2, src])
+        if rng.random() < 0.3:
+            ops.append([0, 1, rng.randint(0, 3)])
+    ops.append([4])
+    return [prog, ops]
+
+
 def generate(rng, tier):
     quick = tier == "quick"
     # exhaustive schedules for small programs
@@ -168,6 +239,8 @@ def generate(rng, tier):
             X.add_variants(rng, prog, 0.6)       # other entry points of the same mechanism (see rxlib)
             if i % 8 == 1:
                 X.add_streams(rng, prog)         # signal.to_stream(): an isomorphic effect inside the library
+            if i % 8 == 3:
+                X.add_cleanups(rng, prog, 0.6)   # on_cleanup callbacks reading signals
             ops = [o for o in X.vary_disposals(rng, prog, ops) if not (o[0] == 8 and not X.disposable(prog, o[1]))]
         yield dict(case=C.norm(X.with_flags(rng, prog, ops, 0.4 if i % 2 else 0)), kind="random", compare=True)
     # pause / resume through both notification paths (F-C02-a shape and variations)
@@ -257,6 +330,12 @@ def generate(rng, tier):
         yield dict(case=C.norm([prog, ops]), kind="silent", compare=False)
     for i in range(30 if quick else 300):
         yield dict(case=C.norm(selfwrite(rng)), kind="selfwrite", compare=True)
+    # self-feeding programs OUTSIDE the failing shape of F-C02-d (clamp / count-up / normalise on a directly read signal,
+    # written by the body or the watch handler; through a memo that is not pulled again): they converge and are judged
+    for i in range(1500 if quick else 15000):
+        yield dict(case=C.norm(selfwrite_direct(rng)), kind="selfwrite-direct", compare=True)
+    for i in range(600 if quick else 6000):
+        yield dict(case=C.norm(selfwrite_immediate(rng)), kind="selfwrite-imm", compare=False)
     # ImmediateEffect: not modelled; watchdog + oracle only
     for i in range(800 if quick else 8000):
         ne = rng.choice([1, 1, 2])
@@ -274,7 +353,12 @@ def oracle(item, impl):
 
 def classify(item, impl, model):
     if self_feeding(item["case"][0]):
-        return "F-C02-d"
+        # F-C02-d is the narrow failing shape (memo read, write below it, the memo pulled again in the same run), not the
+        # whole static class: a self-feeding program without that shape converges and any failure of it is reported
+        h = X.NarrowD()
+        X.run_oracle(item, impl, h)
+        if h.hit:
+            return "F-C02-d"
     if any(o and o[0] == 10 for o in item["case"][1]):
         # F-C02-g: exactly the failure "an effect created under a paused owner (and not resumed since) ran"
         h = X.C02Hooks()
